@@ -160,6 +160,11 @@ func excludedTree(n *dgen.Node, enc string) string {
 			if e := dgen.YAMLKnownBad(x.S, isKey); e != "" && (enc == "yaml" || isKey && strings.HasPrefix(e, "NFC")) {
 				ex = e
 			}
+			if ex == "" && enc == "json" && strings.Contains(x.S, "\ufeff") {
+				// known finding F23 (C10), seen through the CLI: cue export writes U+FEFF raw into a JSON
+				// string and cue import rejects that file as invalid JSON
+				ex = "NoByteOrderMarkInJSONString(F23)"
+			}
 		}
 	})
 	return ex
@@ -430,10 +435,8 @@ func gen(t *rapid.T) Case {
 	case 1:
 		c.Broken = "error"
 	case 2:
-		if enc == "toml" && excl {
-			c.Broken = "" // known finding F12: null silently dropped by the TOML encoder
-		} else if enc == "toml" {
-			c.Broken = "tomlnull"
+		if enc == "toml" {
+			c.Broken = "tomlnull" // must be an error (F12, fixed: null was silently dropped)
 		}
 	}
 	return c
